@@ -162,6 +162,14 @@ def drillField (ds : Docs) : Nat → Nat → Cur → String → DrillOut
         | some i => match j.items[i]? with | some x => .found (mkCur e (some x)) | none => .err
         | none => .err
       | .struct name =>
+        -- a path item given by `$ref` was overwritten by its target when it was resolved (`*pathItem = resolved`)
+        let j : JV := if name == "PathItem" && p != "$ref" then
+            (match j.refText? with
+             | some t => (match drillText ds fuel doc t with
+                          | .found (.val (.ptr (.struct "PathItem")) j2) => j2
+                          | _ => j)
+             | none => j)
+          else j
         match fieldTy? name p with
         | some fty => .found (mkCur fty (j.get? p))
         | none =>
@@ -230,17 +238,27 @@ def drillText (ds : Docs) : Nat → Nat → String → DrillOut
       | some j => if j.isObj then drillTokens ds fuel d (.val (.ptr (.struct "T")) j) toks else .err
 end
 
+/-- outcome of the raw re-read fallback -/
+inductive RawOut
+  | found (j : JV)
+  | nullMember      -- a step succeeded with a nil value: `drill` fails, but the `err` the closure shares
+                    -- with `resolveComponent` was last set to nil — the caller goes on with an empty wrapper
+  | err
+
 /-- the raw re-read fallback: the same tokens over the plainly decoded file -/
-def drillRaw (ds : Docs) (doc : Nat) (toks : List String) : Option JV :=
+def drillRaw (ds : Docs) (doc : Nat) (toks : List String) : RawOut :=
   match ds.doc? doc with
-  | none => none
+  | none => .err
   | some j =>
-    let step (c : Option JV) (p : String) : Option JV :=
+    let step (c : RawOut) (p : String) : RawOut :=
       match c with
-      | some (.obj kvs) => match kvs.find? (·.1 == p) with | some kv => (if kv.2.isNull then none else some kv.2) | none => none
-      | some (.arr xs) => match parseIndex p with | some i => (match xs[i]? with | some .null => none | r => r) | none => none
-      | _ => none
-    toks.foldl step (some j)
+      | .found (.obj kvs) => match kvs.find? (·.1 == p) with | some kv => (if kv.2.isNull then .nullMember else .found kv.2) | none => .err
+      | .found (.arr xs) => match parseIndex p with
+        | some i => (match xs[i]? with | some .null => .nullMember | some x => .found x | none => .err)
+        | none => .err
+      | .found _ => .err
+      | r => r
+    toks.foldl step (.found j)
 
 def drillFuel : Nat := 64
 
@@ -350,7 +368,8 @@ def targetOf (ds : Docs) (doc : Nat) (text : String) (k : Kind) : Tgt :=
       let rawTgt (_ : Unit) : Tgt :=
         if ds.hasPath then
           match drillRaw ds d toks with
-          | some (.obj kvs) => .raw (toNode nodeFuel d k path (.obj kvs))
+          | .found (.obj kvs) => .raw (toNode nodeFuel d k path (.obj kvs))
+          | .nullMember => .raw (.mk (nodeId d path) d k none true [])
           | _ => .err
         else .err
       match drillText ds drillFuel doc text with
@@ -477,6 +496,7 @@ def unresolved (b : Built) (load : Res) : Bool :=
 /-! ### exclusion predicates: typed positions of the whole document -/
 
 structure Pos where
+  h      : Nat        -- hash of the pointer (as `toNode` computes it)
   ctx    : String     -- "Owner.tag" of the struct field this position is (an element of)
   ty     : Ty
   j      : JV
@@ -484,37 +504,37 @@ structure Pos where
   deriving Inhabited
 
 /-- every typed position of a value (all fields of the struct table, not only the loader's walk) -/
-def positions : Nat → String → Ty → JV → Bool → List Pos
-  | 0, _, _, _, _ => []
-  | fuel + 1, ctx, ty, j, inColl =>
+def positions : Nat → Nat → String → Ty → JV → Bool → List Pos
+  | 0, _, _, _, _, _ => []
+  | fuel + 1, h, ctx, ty, j, inColl =>
   let positions := positions fuel
-  let here : Pos := { ctx := ctx, ty := ty, j := j, inColl := inColl }
+  let here : Pos := { h := h, ctx := ctx, ty := ty, j := j, inColl := inColl }
   match ty with
-  | .ptr t => if j.isNull then [here] else here :: (positions ctx t j inColl).drop 1
-  | .mapOf e => here :: j.fields.flatMap (fun kv => positions ctx e kv.2 true)
-  | .sliceOf e => here :: j.items.flatMap (fun x => positions ctx e x true)
+  | .ptr t => if j.isNull then [here] else here :: (positions h ctx t j inColl).drop 1
+  | .mapOf e => here :: j.fields.flatMap (fun kv => positions (stepHash h kv.1) ctx e kv.2 true)
+  | .sliceOf e => here :: (j.items.zipIdx).flatMap (fun (x, i) => positions (stepHash h (toString i)) ctx e x true)
   | .struct name =>
     if j.refText?.isSome && (wrapperValueTy? name).isSome then [here]
     else
       let own := (taggedFields name).flatMap (fun f => match j.get? f.tag with
-        | some v => positions (name ++ "." ++ f.tag) f.ty v false
+        | some v => positions (stepHash h f.tag) (name ++ "." ++ f.tag) f.ty v false
         | none => [])
       let viaValue := match wrapperValueTy? name with
-        | some vty => (positions ctx vty j inColl).drop 1
+        | some vty => (positions h ctx vty j inColl).drop 1
         | none => []
       let viaMap := match maplikeTy? name with
-        | some mty => (positions (name ++ ".m") mty (.obj (extensionsOf name j)) inColl).drop 1
+        | some mty => (positions h (name ++ ".m") mty (.obj (extensionsOf name j)) inColl).drop 1
         | none => []
-      let embedded := (Gen.c20Embedded.filter (·.1 == name)).flatMap (fun e => (positions ctx (.struct e.2) j inColl).drop 1)
+      let embedded := (Gen.c20Embedded.filter (·.1 == name)).flatMap (fun e => (positions h ctx (.struct e.2) j inColl).drop 1)
       let addProps := if name == "Schema" then
           match j.get? "additionalProperties" with
-          | some (.obj kvs) => positions "Schema.additionalProperties" (.ptr (.struct "SchemaRef")) (.obj kvs) false
+          | some (.obj kvs) => positions (stepHash h "additionalProperties") "Schema.additionalProperties" (.ptr (.struct "SchemaRef")) (.obj kvs) false
           | _ => []
         else []
       here :: (own ++ viaValue ++ viaMap ++ embedded ++ addProps)
   | _ => [here]
 
-def docPositions (j : JV) : List Pos := positions 96 "" (.ptr (.struct "T")) j false
+def docPositions (j : JV) : List Pos := positions 96 11 "" (.ptr (.struct "T")) j false
 
 def isWrapperPtr : Ty → Bool
   | .ptr (.struct n) => (kindOfStruct? n).isSome && n != "PathItem"
@@ -540,6 +560,22 @@ def nullMember (ps : List Pos) : Bool :=
   ps.any (fun p => p.j.isNull && p.inColl &&
     (p.ty == .ptr (.struct "Server") || p.ty == .ptr (.struct "Tag") || p.ty == .ptr (.struct "ServerVariable") ||
      p.ty == .ptr (.struct "Encoding") || (p.ty == .ptr (.struct "ParameterRef") && p.ctx == "PathItem.parameters")))
+
+mutual
+def nodeIds : Node → List Nat
+  | .mk id _ _ _ _ kids => id :: nodesIds kids
+def nodesIds : List Node → List Nat
+  | [] => []
+  | k :: ks => nodeIds k ++ nodesIds ks
+end
+
+/-- DESIGN #13: a `$ref` at a wrapper position of the root document that the loader's walk never visits
+    (`components.links`, `examples` of parameters and headers, …; the encoding headers are class #41):
+    it keeps `Value == nil` and has no `refPath` -/
+def unwalkedRef (roots : List Node) (ps : List Pos) : Bool :=
+  let walked := nodesIds roots
+  ps.any (fun p => (isWrapperPtr p.ty || p.ty == .ptr (.struct "PathItem")) && p.ctx != "Encoding.headers" &&
+    !p.j.isNull && p.j.refText?.isSome && !walked.contains (nodeId 0 p.h))
 
 /-- #41: a header of an `encoding` entry that is a reference (the loader never walks this position) -/
 def encodingHeader (ps : List Pos) : Bool :=
